@@ -1,6 +1,275 @@
-(* C12 placeholder while the model is validated; replaced below *)
-From Coq Require Import ZArith List.
-From Pymoto Require Import Base.Num Model.Grid Model.ElemOps Proofs.ElemOpsP.
+(* C12 — element-level operators reproduce affine fields exactly and agree with assembly.
+   Statements only; every proof is `exact <lemma>`; Print Assumptions under each.
+
+   Models: Model/ElemOps.v (ElementOperation, Strain, Stress, ElementAverage, NodalOperation, ThermoMechanical as
+   written) on top of Model/ElemMat.v / Model/Assembly.v (C08).  s3 stands for the number np.sqrt(3); the theorems
+   hold for every s3 <> 0.  Fields: `nodal_field g ndof f` is the nodal vector with value f(node, dof);
+   `affine_field2/3` is u(n) = G * get_node_position(n) + c.
+
+   KNOWN FINDING (DESIGN section 5 item 9; pinned by tests/test_element_operations.py::test_pure_shear).
+   The full statement of the first clause of the property would be
+
+     C12_strain_affine :  Strain(voigt=True)(u) = (G11, G22, G12 + G21)  [2-D]
+                          resp. (G11, G22, G33, G23+G32, G13+G31, G12+G21)  [3-D, Voigt order]   in every element.
+
+   The faithful model (B[idx_shear, :] *= 2 applied to rows of get_B that are engineering shear already) satisfies
+   instead `C12_strain_affine_partial_*` below: normal components exact, shear components = 2 x engineering shear;
+   `C12_strain_shear_refuted_*` exhibits gradients for which the shear component is not G_ij + G_ji.
+   Stress = D @ Strain inherits the doubled shear (C12_stress_affine_2d, _3d), and so does the energy identity:
+   `C12_energy_*` states what is true of the model: sum_e x_e V_e sigma_e.eps_e = u^T K u + 3 * shear energy,
+   hence equality exactly for shear-free gradients (`C12_energy_shear_free_*`). *)
+From Coq Require Import ZArith List Reals Lra.
+From Pymoto Require Import Base.Num Base.Qsqrt3 Base.SparseLin Base.FEMat Model.Grid Model.Shape Model.ElemMat Model.Assembly Model.ElemOps.
+From Pymoto Require Import Proofs.GridP Proofs.ShapeP Proofs.ElemMatP Proofs.AssemblyP Proofs.ElemOpsP.
 Import ListNotations.
-Example C12_nonvacuous : spread 2 1 [3; 4]%Z = [0; 3; 0; 4]%Z.
-Proof. reflexivity. Qed.
+Open Scope R_scope.
+
+(* ------------------------------------------------------------------ Strain *)
+(* at EVERY point of the element B(p) u = symmetric gradient with engineering shear (the kinematics are right) *)
+Theorem C12_B_affine_2d :
+  forall hx hy hz px py pz g11 g12 g21 g22 c1 c2, hx <> 0 -> hy <> 0 ->
+    mvmul (B_at 2 [hx; hy; hz] [px; py; pz]) (aff2 [hx; hy; hz] g11 g12 g21 g22 c1 c2) = [g11; g22; g12 + g21].
+Proof. exact B_affine2. Qed.
+Print Assumptions C12_B_affine_2d.
+
+Theorem C12_B_affine_3d :
+  forall hx hy hz px py pz g11 g12 g13 g21 g22 g23 g31 g32 g33 c1 c2 c3, hx <> 0 -> hy <> 0 -> hz <> 0 ->
+    mvmul (B_at 3 [hx; hy; hz] [px; py; pz]) (aff3 [hx; hy; hz] g11 g12 g13 g21 g22 g23 g31 g32 g33 c1 c2 c3)
+    = [g11; g22; g33; g23 + g32; g13 + g31; g12 + g21].
+Proof. exact B_affine3. Qed.
+Print Assumptions C12_B_affine_3d.
+
+(* what Strain(voigt=True) returns on every grid: rows = components, columns = elements *)
+Theorem C12_strain_affine_partial_2d :
+  forall g (s3 hx hy hz : R), wf g -> nelz g = 0%Z -> s3 <> 0 -> hx <> 0 -> hy <> 0 ->
+  forall g11 g12 g21 g22 c1 c2,
+    eo_response g (strain_opmat s3 2 [hx; hy; hz] true) (nodal_field g 2 (affine_field2 g hx hy g11 g12 g21 g22 c1 c2))
+    = map (fun v => repeat v (Z.to_nat (nel g))) [g11; g22; 2 * (g12 + g21)].
+Proof. exact strain2_global_voigt. Qed.
+Print Assumptions C12_strain_affine_partial_2d.
+
+Theorem C12_strain_affine_partial_3d :
+  forall g (s3 hx hy hz : R), wf g -> nelz g <> 0%Z -> s3 <> 0 -> hx <> 0 -> hy <> 0 -> hz <> 0 ->
+  forall g11 g12 g13 g21 g22 g23 g31 g32 g33 c1 c2 c3,
+    eo_response g (strain_opmat s3 3 [hx; hy; hz] true)
+                (nodal_field g 3 (affine_field3 g hx hy hz g11 g12 g13 g21 g22 g23 g31 g32 g33 c1 c2 c3))
+    = map (fun v => repeat v (Z.to_nat (nel g))) [g11; g22; g33; 2 * (g23 + g32); 2 * (g13 + g31); 2 * (g12 + g21)].
+Proof. exact strain3_global_voigt. Qed.
+Print Assumptions C12_strain_affine_partial_3d.
+
+(* voigt=False returns the engineering shear gamma (the docstring promises the tensor component eps_xy) *)
+Theorem C12_strain_novoigt_2d :
+  forall g (s3 hx hy hz : R), wf g -> nelz g = 0%Z -> s3 <> 0 -> hx <> 0 -> hy <> 0 ->
+  forall g11 g12 g21 g22 c1 c2,
+    eo_response g (strain_opmat s3 2 [hx; hy; hz] false) (nodal_field g 2 (affine_field2 g hx hy g11 g12 g21 g22 c1 c2))
+    = map (fun v => repeat v (Z.to_nat (nel g))) [g11; g22; g12 + g21].
+Proof. exact strain2_global_novoigt. Qed.
+Print Assumptions C12_strain_novoigt_2d.
+
+Theorem C12_strain_novoigt_3d :
+  forall g (s3 hx hy hz : R), wf g -> nelz g <> 0%Z -> s3 <> 0 -> hx <> 0 -> hy <> 0 -> hz <> 0 ->
+  forall g11 g12 g13 g21 g22 g23 g31 g32 g33 c1 c2 c3,
+    eo_response g (strain_opmat s3 3 [hx; hy; hz] false)
+                (nodal_field g 3 (affine_field3 g hx hy hz g11 g12 g13 g21 g22 g23 g31 g32 g33 c1 c2 c3))
+    = map (fun v => repeat v (Z.to_nat (nel g))) [g11; g22; g33; g23 + g32; g13 + g31; g12 + g21].
+Proof. exact strain3_global_novoigt. Qed.
+Print Assumptions C12_strain_novoigt_3d.
+
+(* the shear component of Strain(voigt=True) is NOT the engineering shear: witness u = (y, 0) on one unit element *)
+Theorem C12_strain_shear_refuted_2d :
+  exists g (s3 hx hy hz g11 g12 g21 g22 c1 c2 : R),
+    wf g /\ nelz g = 0%Z /\ s3 <> 0 /\ hx <> 0 /\ hy <> 0 /\
+    nth 2 (eo_response g (strain_opmat s3 2 [hx; hy; hz] true) (nodal_field g 2 (affine_field2 g hx hy g11 g12 g21 g22 c1 c2))) []
+    <> repeat (g12 + g21) (Z.to_nat (nel g)).
+Proof. exact strain2_shear_refuted. Qed.
+Print Assumptions C12_strain_shear_refuted_2d.
+
+Theorem C12_strain_shear_refuted_3d :
+  exists g (s3 hx hy hz g11 g12 g13 g21 g22 g23 g31 g32 g33 c1 c2 c3 : R),
+    wf g /\ nelz g <> 0%Z /\ s3 <> 0 /\ hx <> 0 /\ hy <> 0 /\ hz <> 0 /\
+    nth 5 (eo_response g (strain_opmat s3 3 [hx; hy; hz] true)
+                       (nodal_field g 3 (affine_field3 g hx hy hz g11 g12 g13 g21 g22 g23 g31 g32 g33 c1 c2 c3))) []
+    <> repeat (g12 + g21) (Z.to_nat (nel g)).
+Proof. exact strain3_shear_refuted. Qed.
+Print Assumptions C12_strain_shear_refuted_3d.
+
+(* ------------------------------------------------------------------ Stress *)
+(* sigma_e = D . eps_e for ANY nodal vector (eps_e = what Strain(voigt=True) returns in that element) *)
+Theorem C12_stress_is_D_strain_2d :
+  forall (s3 hx hy hz E nu : R) mode v,
+    mvmul (stress_B s3 2 [hx; hy; hz] E nu mode) v
+    = mvmul (material_D 2 [hx; hy; hz] E nu mode) (mvmul (strain_B s3 2 [hx; hy; hz] true) v).
+Proof. exact stress2_is_D_strain. Qed.
+Print Assumptions C12_stress_is_D_strain_2d.
+
+Theorem C12_stress_is_D_strain_3d :
+  forall (s3 hx hy hz E nu : R) mode v,
+    mvmul (stress_B s3 3 [hx; hy; hz] E nu mode) v
+    = mvmul (material_D 3 [hx; hy; hz] E nu mode) (mvmul (strain_B s3 3 [hx; hy; hz] true) v).
+Proof. exact stress3_is_D_strain. Qed.
+Print Assumptions C12_stress_is_D_strain_3d.
+
+Theorem C12_stress_affine_2d :
+  forall g (s3 hx hy hz E nu : R) mode g11 g12 g21 g22 c1 c2,
+    wf g -> nelz g = 0%Z -> s3 <> 0 -> hx <> 0 -> hy <> 0 ->
+    eo_response g (stress_opmat s3 2 [hx; hy; hz] E nu mode) (nodal_field g 2 (affine_field2 g hx hy g11 g12 g21 g22 c1 c2))
+    = map (fun v => repeat v (Z.to_nat (nel g))) (mvmul (material_D 2 [hx; hy; hz] E nu mode) [g11; g22; 2 * (g12 + g21)]).
+Proof. exact stress2_global. Qed.
+Print Assumptions C12_stress_affine_2d.
+
+Theorem C12_stress_affine_3d :
+  forall g (s3 hx hy hz E nu : R) mode g11 g12 g13 g21 g22 g23 g31 g32 g33 c1 c2 c3,
+    wf g -> nelz g <> 0%Z -> s3 <> 0 -> hx <> 0 -> hy <> 0 -> hz <> 0 ->
+    eo_response g (stress_opmat s3 3 [hx; hy; hz] E nu mode)
+                (nodal_field g 3 (affine_field3 g hx hy hz g11 g12 g13 g21 g22 g23 g31 g32 g33 c1 c2 c3))
+    = map (fun v => repeat v (Z.to_nat (nel g)))
+          (mvmul (material_D 3 [hx; hy; hz] E nu mode) [g11; g22; g33; 2 * (g23 + g32); 2 * (g13 + g31); 2 * (g12 + g21)]).
+Proof. exact stress3_global. Qed.
+Print Assumptions C12_stress_affine_3d.
+
+(* ------------------------------------------------------------------ energy *)
+(* element level, true strain: u_e^T K_e u_e = V_e * eps^T D eps *)
+Theorem C12_energy_elem_2d :
+  forall (s3 hx hy hz E nu g11 g12 g21 g22 c1 c2 : R) mode, (mode = 0 \/ mode = 1)%Z -> hx <> 0 -> hy <> 0 ->
+    quad (stiffness_element s3 2 [hx; hy; hz] E nu mode) (aff2 [hx; hy; hz] g11 g12 g21 g22 c1 c2)
+    = hx * hy * quad (material_D 2 [hx; hy; hz] E nu mode) [g11; g22; g12 + g21].
+Proof. exact energy2_elem. Qed.
+Print Assumptions C12_energy_elem_2d.
+
+Theorem C12_energy_elem_3d :
+  forall (s3 hx hy hz E nu g11 g12 g13 g21 g22 g23 g31 g32 g33 c1 c2 c3 : R) mode, hx <> 0 -> hy <> 0 -> hz <> 0 ->
+    quad (stiffness_element s3 3 [hx; hy; hz] E nu mode) (aff3 [hx; hy; hz] g11 g12 g13 g21 g22 g23 g31 g32 g33 c1 c2 c3)
+    = hx * hy * hz * quad (material_D 3 [hx; hy; hz] E nu mode) [g11; g22; g33; g23 + g32; g13 + g31; g12 + g21].
+Proof. exact energy3_elem. Qed.
+Print Assumptions C12_energy_elem_3d.
+
+(* module outputs against the assembled stiffness matrix of C08 (2-D: D carries the thickness hz, V_e = hx*hy) *)
+Theorem C12_energy_2d :
+  forall g (s3 hx hy hz E nu : R) mode (bcd : R) (x : list R) g11 g12 g21 g22 c1 c2,
+    wf g -> nelz g = 0%Z -> (mode = 0 \/ mode = 1)%Z -> s3 <> 0 -> hx <> 0 -> hy <> 0 -> length x = Z.to_nat (nel g) ->
+    let h := [hx; hy; hz] in
+    let u := nodal_field g 2 (affine_field2 g hx hy g11 g12 g21 g22 c1 c2) in
+    let D := material_D 2 h E nu mode in
+    energy_sum x (hx * hy) (eo_response g (stress_opmat s3 2 h E nu mode) u) (eo_response g (strain_opmat s3 2 h true) u)
+    = dot u (apply (to_triples (asm_ztriples g (stiffness_element s3 2 h E nu mode) None bcd x)) (Z.to_nat (asm_n g 2)) u)
+      + 3 * (hx * hy) * quad D [0; 0; g12 + g21] * nsum x.
+Proof. exact energy2_global. Qed.
+Print Assumptions C12_energy_2d.
+
+Theorem C12_energy_3d :
+  forall g (s3 hx hy hz E nu : R) mode (bcd : R) (x : list R) g11 g12 g13 g21 g22 g23 g31 g32 g33 c1 c2 c3,
+    wf g -> nelz g <> 0%Z -> s3 <> 0 -> hx <> 0 -> hy <> 0 -> hz <> 0 -> length x = Z.to_nat (nel g) ->
+    let h := [hx; hy; hz] in
+    let u := nodal_field g 3 (affine_field3 g hx hy hz g11 g12 g13 g21 g22 g23 g31 g32 g33 c1 c2 c3) in
+    let D := material_D 3 h E nu mode in
+    energy_sum x (hx * hy * hz) (eo_response g (stress_opmat s3 3 h E nu mode) u) (eo_response g (strain_opmat s3 3 h true) u)
+    = dot u (apply (to_triples (asm_ztriples g (stiffness_element s3 3 h E nu mode) None bcd x)) (Z.to_nat (asm_n g 3)) u)
+      + 3 * (hx * hy * hz) * quad D [0; 0; 0; g23 + g32; g13 + g31; g12 + g21] * nsum x.
+Proof. exact energy3_global. Qed.
+Print Assumptions C12_energy_3d.
+
+Theorem C12_energy_shear_free_2d :
+  forall g (s3 hx hy hz E nu : R) mode (bcd : R) (x : list R) g11 g12 g21 g22 c1 c2,
+    wf g -> nelz g = 0%Z -> (mode = 0 \/ mode = 1)%Z -> s3 <> 0 -> hx <> 0 -> hy <> 0 -> length x = Z.to_nat (nel g) ->
+    g12 + g21 = 0 ->
+    let h := [hx; hy; hz] in
+    let u := nodal_field g 2 (affine_field2 g hx hy g11 g12 g21 g22 c1 c2) in
+    energy_sum x (hx * hy) (eo_response g (stress_opmat s3 2 h E nu mode) u) (eo_response g (strain_opmat s3 2 h true) u)
+    = dot u (apply (to_triples (asm_ztriples g (stiffness_element s3 2 h E nu mode) None bcd x)) (Z.to_nat (asm_n g 2)) u).
+Proof. exact energy2_shear_free. Qed.
+Print Assumptions C12_energy_shear_free_2d.
+
+Theorem C12_energy_shear_free_3d :
+  forall g (s3 hx hy hz E nu : R) mode (bcd : R) (x : list R) g11 g12 g13 g21 g22 g23 g31 g32 g33 c1 c2 c3,
+    wf g -> nelz g <> 0%Z -> s3 <> 0 -> hx <> 0 -> hy <> 0 -> hz <> 0 -> length x = Z.to_nat (nel g) ->
+    g23 + g32 = 0 -> g13 + g31 = 0 -> g12 + g21 = 0 ->
+    let h := [hx; hy; hz] in
+    let u := nodal_field g 3 (affine_field3 g hx hy hz g11 g12 g13 g21 g22 g23 g31 g32 g33 c1 c2 c3) in
+    energy_sum x (hx * hy * hz) (eo_response g (stress_opmat s3 3 h E nu mode) u) (eo_response g (strain_opmat s3 3 h true) u)
+    = dot u (apply (to_triples (asm_ztriples g (stiffness_element s3 3 h E nu mode) None bcd x)) (Z.to_nat (asm_n g 3)) u).
+Proof. exact energy3_shear_free. Qed.
+Print Assumptions C12_energy_shear_free_3d.
+
+(* ------------------------------------------------------------------ ElementAverage *)
+Theorem C12_element_average_centroid_2d :
+  forall g (hx hy hz c0 gx gy : R), wf g -> nelz g = 0%Z -> hx <> 0 -> hy <> 0 ->
+    eo_response g (average_opmat 2 [hx; hy; hz]) (nodal_field g 1 (lin_field2 g hx hy c0 gx gy))
+    = [map (fun e => c0 + gx * (hx * (IZR (elem_i g e) + 1 / 2)) + gy * (hy * (IZR (elem_j g e) + 1 / 2))) (zrange (nel g))].
+Proof. exact average2_global. Qed.
+Print Assumptions C12_element_average_centroid_2d.
+
+Theorem C12_element_average_centroid_3d :
+  forall g (hx hy hz c0 gx gy gz : R), wf g -> nelz g <> 0%Z -> hx <> 0 -> hy <> 0 -> hz <> 0 ->
+    eo_response g (average_opmat 3 [hx; hy; hz]) (nodal_field g 1 (lin_field3 g hx hy hz c0 gx gy gz))
+    = [map (fun e => c0 + gx * (hx * (IZR (elem_i g e) + 1 / 2)) + gy * (hy * (IZR (elem_j g e) + 1 / 2))
+                        + gz * (hz * (IZR (elem_k g e) + 1 / 2))) (zrange (nel g))].
+Proof. exact average3_global. Qed.
+Print Assumptions C12_element_average_centroid_3d.
+
+(* ------------------------------------------------------------------ NodalOperation = transpose of ElementOperation *)
+(* the two einsum/scatter primitives are adjoint for every operator array, connectivity and data *)
+Theorem C12_primitives_adjoint :
+  forall kd (rows : list (list R)) (dcs : list (list Z)) n (W : list (list R)) u,
+    Forall (fun r => length r = kd) rows ->
+    length W = length rows -> Forall (fun w => length w = length dcs) W ->
+    length u = n -> Forall (fun dce => Forall (fun d => (Z.to_nat d < n)%nat) dce) dcs ->
+    mdot W (op_fwd rows dcs u) = dot (op_bwd kd rows dcs n W) u.
+Proof. exact (op_adjoint RthR). Qed.
+Print Assumptions C12_primitives_adjoint.
+
+(* <X, ElementOperation(u)> = <NodalOperation(X), u> on every grid, for every operator array with
+   #dofs_per_element columns and any leading shape (rows = its C-order flattening) *)
+Theorem C12_nodal_is_transpose :
+  forall g (em : @opmat R) ndof (X : list (list R)) (u : list R),
+    wf g -> (1 <= ndof)%Z -> om_kd em = (elemnodes g * ndof)%Z ->
+    Forall (fun r => length r = Z.to_nat (om_kd em)) (om_rows em) ->
+    length u = Z.to_nat (ndof * nnodes g) ->
+    length X = length (om_rows em) -> Forall (fun w => length w = Z.to_nat (nel g)) X ->
+    mdot X (eo_response g em u) = dot (no_response g em X) u.
+Proof. exact eo_no_adjoint. Qed.
+Print Assumptions C12_nodal_is_transpose.
+
+(* ------------------------------------------------------------------ ThermoMechanical *)
+Theorem C12_thermal_self_equilibrated_2d :
+  forall g (s3 hx hy hz E nu alpha : R) mode (x : list R) k,
+    wf g -> nelz g = 0%Z -> (mode = 0 \/ mode = 1)%Z -> hx <> 0 -> hy <> 0 -> length x = Z.to_nat (nel g) -> (k < 2)%nat ->
+    dot (no_response g (thermo_opmat s3 2 [hx; hy; hz] E nu alpha mode) [x]) (nodal_field g 2 (dir_field (Z.of_nat k))) = 0.
+Proof. exact thermal2_self_equilibrated. Qed.
+Print Assumptions C12_thermal_self_equilibrated_2d.
+
+Theorem C12_thermal_self_equilibrated_3d :
+  forall g (s3 hx hy hz E nu alpha : R) mode (x : list R) k,
+    wf g -> nelz g <> 0%Z -> hx <> 0 -> hy <> 0 -> hz <> 0 -> length x = Z.to_nat (nel g) -> (k < 3)%nat ->
+    dot (no_response g (thermo_opmat s3 3 [hx; hy; hz] E nu alpha mode) [x]) (nodal_field g 3 (dir_field (Z.of_nat k))) = 0.
+Proof. exact thermal3_self_equilibrated. Qed.
+Print Assumptions C12_thermal_self_equilibrated_3d.
+
+(* element level: K_e times the free thermal expansion field alpha*x (any offset) = the element load alpha*BDPhi.
+   (holds algebraically for every plane mode; the property asks for plane stress and 3-D) *)
+Theorem C12_thermal_is_K_times_expansion_elem_2d :
+  forall (s3 hx hy hz E nu alpha c1 c2 : R) mode, (mode = 0 \/ mode = 1)%Z -> hx <> 0 -> hy <> 0 ->
+    mvmul (stiffness_element s3 2 [hx; hy; hz] E nu mode) (aff2 [hx; hy; hz] alpha 0 0 alpha c1 c2)
+    = vscale alpha (thermo_BDPhi s3 2 [hx; hy; hz] E nu mode).
+Proof. exact thermo2_is_K_expansion. Qed.
+Print Assumptions C12_thermal_is_K_times_expansion_elem_2d.
+
+Theorem C12_thermal_is_K_times_expansion_elem_3d :
+  forall (s3 hx hy hz E nu alpha c1 c2 c3 : R) mode, hx <> 0 -> hy <> 0 -> hz <> 0 ->
+    mvmul (stiffness_element s3 3 [hx; hy; hz] E nu mode) (aff3 [hx; hy; hz] alpha 0 0 0 alpha 0 0 0 alpha c1 c2 c3)
+    = vscale alpha (thermo_BDPhi s3 3 [hx; hy; hz] E nu mode).
+Proof. exact thermo3_is_K_expansion. Qed.
+Print Assumptions C12_thermal_is_K_times_expansion_elem_3d.
+
+(* ------------------------------------------------------------------ non-vacuity *)
+(* concrete 2x1 grid, integer operator: ElementOperation / NodalOperation outputs are the expected non-trivial
+   numbers and the adjoint identity holds on them (both sides = 227) *)
+Example C12_nonvacuous :
+  let g := {| nelx := 2; nely := 1; nelz := 0 |} in
+  let em : @opmat Z := {| om_lead := [2%Z]; om_kd := 4; om_rows := [[1; 2; 3; 4]; [0; -1; 0; 1]]%Z |} in
+  let u := [1; 2; 3; 4; 5; 6]%Z in
+  let X := [[7; -1]; [2; 3]]%Z in
+  (Z.eqb (eo_status g em 6) 0 = true /\ wf g) /\
+  eo_response g em u = [[37; 47]; [3; 3]]%Z /\
+  no_response g em X = [7; 11; -5; 21; 27; -1]%Z /\
+  nsum (map (fun p => dot (fst p) (snd p)) (combine X (eo_response g em u))) = dot (no_response g em X) u.
+Proof. vm_compute. repeat split; try reflexivity; try discriminate. Qed.
